@@ -6,6 +6,7 @@ UNITS = {
     "dual_ops": {"rlimit": 50},
     "curves": {"rlimit": 50},
     "splines": {"rlimit": 50},
+    "calendars": {"rlimit": 30},
 }
 
 COMMON_ASSUMPTIONS = [
@@ -155,6 +156,21 @@ CHECKS = {
             "oracle: the Cox-de Boor recursion with right-continuous pieces, 0/0 := 0 and the right-end-point rule, and de Boor's derivative recursion, as spec functions bsp / dsp in contracts/splines.vx; that dsp IS the derivative of the piecewise polynomial is de Boor's theorem (taken as the oracle, not re-derived from limits)",
         ],
         "uncovered": SPLINE_UNCOVERED,
+    },
+    "C06": {
+        "units": ["calendars"],
+        "level": "proof",
+        "assumptions": CHRONO_ASSUMPTIONS + [
+            "get_calendar_by_name(name) returns the calendar named_cal(name) or an error when the name is unknown (assumed contract; its tables and wiring are decided by C07)",
+            "str::to_lowercase and str::split are uninterpreted functions of the character sequences (shim in contracts/calendars.vx); split yields at least one piece",
+            "HashSet<Weekday>::contains / IndexSet<NaiveDateTime>::contains are membership tests (assumed); holidays are midnights",
+            "`impl PartialEq<T> for X` is rendered as the local trait CalEq<T> with the same method bodies (R7)",
+            "Option::map_or, Vec::iter + all/any/zip as eager iterators (shim/collections.rs)",
+        ],
+        "uncovered": [
+            "the derived PartialEq of CalType (variant-wise) and of Cal (structural) are not part of the statement and not under contract",
+            "Python-side wrappers (calendar_py.rs) are outside Verus' reach",
+        ],
     },
     "C07": {
         "units": [],
